@@ -265,9 +265,110 @@ def normalise_block(blk):
     return n
 
 
+def split_or_arms(m):
+    """`A(x) | B(x) => body` is read as the two arms `A(x) => body`, `B(x) => body` (same guard, same body node):
+    only for alternatives that are all enum-variant patterns; literal alternatives are left to their readers"""
+    out = []
+    n = 0
+    for a in m["arms"]:
+        pat = a["pat"]
+        if pat.get("k") == "POr" and len(pat["cases"]) >= 2 and all(c.get("k") in ("PTupleStruct", "PPath", "PStruct") for c in pat["cases"]):
+            for c in pat["cases"]:
+                na = dict(a)
+                na["pat"] = c
+                na["line"] = c.get("line", a.get("line"))
+                na["synthetic"] = True
+                out.append(na)
+            n += 1
+        else:
+            out.append(a)
+    m["arms"] = out
+    return n
+
+
+def tail_option_match_to_let_else(fn):
+    """a function body ending in `match X { None => E, Some(p) => { rest } }` is read as
+    `let Some(p) = X else { return E }; rest` — the same thing in tail position of a function body"""
+    body = fn.get("body")
+    if not isinstance(body, dict) or not body.get("stmts"):
+        return 0
+    last = body["stmts"][-1]
+    if last.get("k") != "ExprStmt" or last.get("semi") or last["expr"].get("k") != "Match":
+        return 0
+    m = last["expr"]
+    if len(m["arms"]) != 2 or any(a.get("guard") is not None for a in m["arms"]):
+        return 0
+    none = [a for a in m["arms"] if (a["pat"].get("k") == "PPath" and a["pat"]["path"]["segs"] == ["None"]) or (a["pat"].get("k") == "PIdent" and a["pat"].get("name") == "None")]
+    some = [a for a in m["arms"] if a["pat"].get("k") == "PTupleStruct" and a["pat"]["path"]["segs"] == ["Some"] and len(a["pat"]["elems"]) == 1]
+    if len(none) != 1 or len(some) != 1:
+        return 0
+    nb, sb = none[0]["body"], some[0]["body"]
+    if nodes(nb, "Return") or sb.get("k") != "BlockExpr" or sb.get("label"):
+        return 0
+    # the None value must be a plain expression (a block with one tail expression is unwrapped)
+    while nb.get("k") == "BlockExpr" and len(nb["block"]["stmts"]) == 1 and nb["block"]["stmts"][0].get("k") == "ExprStmt" and not nb["block"]["stmts"][0].get("semi"):
+        nb = nb["block"]["stmts"][0]["expr"]
+    if nb.get("k") == "BlockExpr":
+        return 0
+    ret = _mk("Return", nb, expr=nb)
+    els = _mk("BlockExpr", nb, block=_mk("Block", nb, stmts=[_mk("ExprStmt", nb, expr=ret, semi=True)]), label=False)
+    let = _mk("Let", m, pat=some[0]["pat"], attrs=[], init=m["expr"])
+    let["else"] = els
+    body["stmts"] = body["stmts"][:-1] + [let] + list(sb["block"]["stmts"])
+    return 1
+
+
+def _single_tail(blk):
+    st = blk["stmts"]
+    return st[0]["expr"] if len(st) == 1 and st[0].get("k") == "ExprStmt" and not st[0].get("semi") and st[0]["expr"].get("k") not in ("If", "Match", "BlockExpr") else None
+
+
+def _negate(c):
+    if c.get("k") == "Unary" and str(c.get("op")).strip() == "!":
+        return c["expr"]
+    return _mk("Unary", c, op="!", expr=c)
+
+
+def tail_if_else_to_guard(fn):
+    """a function body ending in `if C { <one expression> } else { <several statements> }` (or the mirror image) is
+    read in guard form, `if C { return <expression>; } <statements>` — the same thing in tail position of a function
+    body.  Only when exactly one branch is a single expression, so that the direction is determined by the code."""
+    body = fn.get("body")
+    if not isinstance(body, dict) or not body.get("stmts"):
+        return 0
+    last = body["stmts"][-1]
+    if last.get("k") != "ExprStmt" or last.get("semi") or last["expr"].get("k") != "If":
+        return 0
+    e = last["expr"]
+    if e["cond"].get("k") == "LetCond" or e.get("else") is None or e["else"].get("k") != "BlockExpr" or e["else"].get("label"):
+        return 0
+    tv, ev = _single_tail(e["then"]), _single_tail(e["else"]["block"])
+    if (tv is None) == (ev is None):
+        return 0
+    if ev is not None:
+        cond, val, rest = _negate(e["cond"]), ev, e["then"]["stmts"]
+    else:
+        cond, val, rest = e["cond"], tv, e["else"]["block"]["stmts"]
+    if any(st.get("k") == "Let" for st in rest) and any(st.get("k") == "Let" for st in body["stmts"][:-1]):
+        pass  # shadowing inside the moved block stays shadowing after it is spliced at the end of the body
+    guard = _mk("If", e, cond=cond, then=_mk("Block", val, stmts=[_mk("ExprStmt", val, expr=_mk("Return", val, expr=val), semi=True)]))
+    guard["else"] = None
+    body["stmts"] = body["stmts"][:-1] + [_mk("ExprStmt", e, expr=guard, semi=False)] + list(rest)
+    return 1
+
+
 def normalise(tree):
     """apply to every statement list below `tree`"""
     n = 0
+    for p in list(walk(tree)):
+        if isinstance(p, dict) and p.get("k") == "Fn" and isinstance(p.get("body"), dict):
+            n += tail_if_else_to_guard(p)
+    for p in list(walk(tree)):
+        if isinstance(p, dict) and p.get("k") == "Fn" and isinstance(p.get("body"), dict):
+            n += tail_option_match_to_let_else(p)
+    for p in list(walk(tree)):
+        if isinstance(p, dict) and p.get("k") == "Match" and isinstance(p.get("arms"), list):
+            n += split_or_arms(p)
     for p in list(walk(tree)):
         if isinstance(p, dict) and isinstance(p.get("stmts"), list) and p.get("k") in ("Block",):
             n += normalise_block(p)
